@@ -21,6 +21,8 @@ pub struct Scenario {
     pub gen: fn(&GenCtx, u64) -> Option<Run>,
     pub judge: fn(&Run, &[Obs]) -> Judgement,
     pub assumptions: &'static [&'static str],
+    /// sub-spaces this scenario enumerates completely (per sampled token / in every tier)
+    pub exhaustive: &'static [&'static str],
 }
 
 #[derive(Clone, Debug, serde::Deserialize)]
@@ -331,6 +333,7 @@ pub fn run_scenario(sc: &'static Scenario, opts: RunnerOpts) -> (Value, i32) {
         "level": sc.level,
         "rule": sc.rule,
         "assumptions": sc.assumptions,
+        "exhaustive_subspaces": sc.exhaustive,
         "runs_planned": total,
         "runs_executed": g.runs_executed,
         "runs_left_to_other_set": g.runs_skipped_other_set,
